@@ -17,6 +17,7 @@ STARTS = [
     ('abandoned', ('rule', None, ('star', ('choice', ('seq', K, ('str', 'bb')), ('seq', K2, B), K))), True),
     ('memo', ('rule', None, ('seq', ('expect', K), K)), False),
     ('lookahead', ('rule', None, ('seq', ('expect', K2), ('star', K))), False),
+    ('lookahead2', ('rule', None, ('seq', ('expect', ('ref', 'W')), ('opt', K))), False),
     ('nested', ('rule', None, ('star', ('choice', K2, K))), True),
     ('optable', ('rule', None, ('ref', 'E')), True),
     ('template', ('rule', None, ('star', ('call', 'P', [A], []))), True),
@@ -25,8 +26,10 @@ STARTS = [
     ('backtrack', ('rule', None, ('seq', K, ('back', 1), ('opt', K))), False),
     ('expectnot', ('rule', None, ('seq', ('expectnot', K2), ('star', K))), True),
 ]
-IGNORES = [('none', [], 'named'), ('sp', [('re', ' +')], 'named'), ('spnl', [('re', '[ \\n]+')], 'named'),
-           ('spnl-anon', [('re', '[ \\n]+')], 'anon')]
+# (name, patterns, style, input alphabet): \r and form feed are not line breaks for sourcer
+IGNORES = [('none', [], 'named', 'ab\\r\\n'), ('sp', [('re', ' +')], 'named', 'ab\\s\\n'),
+           ('spnl', [('re', '[ \\n]+')], 'named', 'ab\\s\\n'), ('spnl-anon', [('re', '[ \\n]+')], 'anon', 'ab\\s\\n'),
+           ('ws', [('re', '\\s+')], 'named', 'ab\\r\\f')]
 
 
 def spans_in(v, out):
@@ -93,21 +96,22 @@ e1.POST['c10_inv'] = invariants
 
 
 def jobs(tier):
-    inp = 'ab\\s\\n:5' if tier == 'quick' else 'ab\\s\\n:6'
+    n = 5 if tier == 'quick' else 6
     for sn, sd, ordered in STARTS:
-        for iname, pats, style in IGNORES:
+        for iname, pats, style, sigma in IGNORES:
+            inp = '%s:%d' % (sigma, n)
             sname = 'Start' if sd[0] == 'class' else 'start'
             rules = [(sname, sd)] + CLASSES
             entries = [(None, None)] + [(n, None) for n, d in rules if not d[1]]
             mods = [(tuple(rules), tuple(pats), sname, None, (), False, style, None)]
-            yield {'mods': mods, 'inputs': inp, 'mode': 'spans', 'entries': entries, 'positions': 'all',
+            yield {'mods': mods, 'inputs': inp, 'mode': 'spans', 'entries': entries, 'positions': 'all', 'fullparse': (True, False),
                    'tag': '%s/%s' % (sn, iname), 'post': 'c10_inv', 'ordered': ordered}
 
 
 def run(tier, seed):
     chk = Check('C10', tier, seed)
-    chk.rule = ('12 start shapes with classes (repeated, optional, nested, abandoned alternatives that built instances, memoised reuse, '
-                'parsed inside lookahead, inside an operator table, class template, class as start rule, list fields, Backtrack) x 4 '
+    chk.rule = ('13 start shapes with classes (repeated, optional, nested, abandoned alternatives that built instances, memoised reuse, '
+                'parsed inside lookahead, inside an operator table, class template, class as start rule, list fields, Backtrack) x 5 '
                 'ignore configurations x every parameterless rule/class as entry x all inputs over {a,b,space,newline} of length <=5/6 x '
                 'every start offset; oracle: spans recorded by the model (start/end index, line/column) plus nesting / disjointness / '
                 'order / converted-exactly-once invariants on the implementation tree; non-trivial = the model run needed a restore')
